@@ -101,10 +101,6 @@ def writeLines (k : Kind) (m : MolV) : List Str :=
   [ "@<TRIPOS>BOND".toList ] ++
   mapIdxFrom (bondLine bt k) 0 m.bonds
 
-def joinLines : List Str → Str
-  | [] => []
-  | l :: ls => l ++ '\n' :: joinLines ls
-
 /-- `dumps_mol2()` -/
 def writeText (k : Kind) (m : MolV) : Str := joinLines (writeLines tt bt k m)
 
